@@ -355,3 +355,64 @@ func zzC03_selftest() {
 	symWaitUntil(func() bool { return a.done })
 	symAssert(a.err != nil, "selftest: must fail (the request was answered)")
 }
+
+// a response that arrives for a request whose call ends by another path - the peer sent a separate response but
+// never acknowledged the request and the caller gave up; or the response and the cancellation arrive together - is
+// never handed to a later request: the next call on the connection gets its own token and content
+func zzC03_late_response() {
+	s := zzNewSession()
+	cc := zzNewConn(s, zzConnCfg{midSeed: 1000, nstart: 2, maxRetrans: 4, ackTimeout: 1 << 30})
+	symSetNow(time.Unix(0, 1<<41))
+	tagA, tagB := symU8("tagA"), symU8("tagB")
+	ctx, cancel := context.WithCancel(context.Background())
+	a := &zzCall{token: message.Token{0xA0, 0x00}}
+	go func() {
+		req := pool.NewMessage(ctx)
+		req.SetCode(codes.GET)
+		req.SetToken(a.token)
+		_ = req.SetPath("/a")
+		a.resp, a.err = cc.Do(req)
+		if a.err == nil && a.resp != nil {
+			a.tok = a.resp.Token()
+			a.body, _ = a.resp.ReadBody()
+		}
+		a.done = true
+	}()
+	zzWaitWritten(s, 1)
+	symIdle()
+	w := s.written[0]
+	how := symChoose("how", 2)
+	if how == 0 {
+		// a separate response, the request itself is never acknowledged
+		_ = cc.Process(nil, zzDatagram(message.NonConfirmable, 20001, codes.Content, w.token, []byte{tagA}))
+		symIdle()
+		symCover("separate-response-without-ack")
+	} else {
+		// acknowledged; the response and the caller's cancellation arrive together
+		_ = cc.Process(nil, zzDatagram(message.Acknowledgement, w.mid, codes.Empty, nil, nil))
+		symIdle()
+		symSchedCanonical(true)
+		_ = cc.Process(nil, zzDatagram(message.NonConfirmable, 20001, codes.Content, w.token, []byte{tagA}))
+		symSchedCanonical(false)
+		symCover("response-races-cancel")
+	}
+	cancel()
+	symWaitUntil(func() bool { return a.done })
+	if a.err == nil {
+		symAssert(bytes.Equal(a.tok, a.token) && len(a.body) == 1 && a.body[0] == tagA, "a call that succeeds returns its own response")
+	}
+	// the next request on the connection
+	b := &zzCall{token: message.Token{0xB0}}
+	go zzDo(cc, b)
+	zzWaitWritten(s, 2)
+	symIdle()
+	symAssert(!b.done, "a request is not completed before its response has arrived")
+	zzAnswer(cc, s.written[len(s.written)-1], tagB, 0, 1)
+	symWaitUntil(func() bool { return b.done })
+	symCover("next-request-returned")
+	symAssert(b.err == nil, "the next request is answered, so it succeeds")
+	if b.err == nil {
+		symAssert(bytes.Equal(b.tok, b.token), "the next request returns a response carrying its own token")
+		symAssert(len(b.body) == 1 && b.body[0] == tagB, "and the content produced for it")
+	}
+}
